@@ -7,6 +7,7 @@ times inside THIS process (whose PYTHONHASHSEED the harness chose):
           on the first problem again (XA), and a fresh object on the second problem (XF): XR = XF and XA = A
   runs P  two FRESH components one after the other on ONE shared problem object (P1 = P2 = A) with an order-sensitive
           fingerprint of the problem before / between / after (the component must not edit the problem it was given)
+  run H   a fresh object after 1-3 unrelated objects of the same classes were constructed (never called) in the process
   run B   a fresh object immediately afterwards, nothing re-seeded  ("twice in one process")
   run T   a fresh object on a problem object that was already USED (cached views touched) before being handed over
   runs C  after the global generators were put in different states 2, 3, ... ("scrambled"; case["scrambles"] of them)
@@ -514,9 +515,10 @@ def c_semimdp(spec, seed, par):
     for t, sub in enumerate(targets):
         mode = par.get("option_names", "str")
         name = ("to-%s" % (sub,)) if mode == "str" else ([0, ""][t] if mode == "falsy" else 1000 + t)
+        kwname = {} if mode == "none" else {"name": name}          # "none": options created WITHOUT name= (library default)
         options.append(PlanToSubgoalOption(mdp=mdp, initial_states=[s for s in sl if s != sub and not mdp.is_absorbing(s)],
-                                           subgoals=[sub] + [g for g in sl if mdp.is_absorbing(g) and g != sub], planner=ValueIteration(max_iterations=200), name=name,
-                                           max_steps=400, include_mdp_absorbing_states=True))
+                                           subgoals=[sub] + [g for g in sl if mdp.is_absorbing(g) and g != sub], planner=ValueIteration(max_iterations=200),
+                                           max_steps=400, include_mdp_absorbing_states=True, **kwname))
     smdp = SemiMarkovDecisionProcess(mdp=mdp, options=options, n_option_simulations=par.get("nsim", 12), seed=seed,
                                      include_mdp_actions=bool(par.get("include_mdp_actions", False)))
 
@@ -525,7 +527,8 @@ def c_semimdp(spec, seed, par):
         for s in sl[:par.get("nstates", 4)]:
             for o in options:
                 if o.is_initial(s):
-                    out.append([s, o.name, smdp.next_state_transit_time_reward_dist(s, o)])
+                    out.append([s, options.index(o) if par.get("option_names") == "none" else o.name,
+                                smdp.next_state_transit_time_reward_dist(s, o)])
         out.append(["again", smdp.next_state_transit_time_reward_dist(sl[0], options[-1])])
         if par.get("include_mdp_actions"):
             a0 = mdp.actions(sl[0])[0]                       # ground action: exact branch, no simulation
@@ -697,6 +700,19 @@ def one(case, pl):
         out["XA"], _ = bracket(lambda: (call(), None))
         out["XF"], _ = bracket(lambda: fresh(spec2))
     out["B"], _ = bracket(fresh)
+    # run H: the same construction after a VARYING number of unrelated objects of the same classes were created in this
+    # process (problem + component built on the sibling problem, never called): class-level / module-level state such as
+    # instance counters, registries or caches must not reach the result
+    if case.get("h", True):
+        junk = []
+        for j in range(1 + (case["seed"] + len(case["component"])) % 3):
+            try:
+                junk.append(fn(spec2 or case["problem"], case["seed"] + 17 + j, par))
+            except BaseException as e:
+                if isinstance(e, (KeyboardInterrupt, SystemExit)):
+                    raise
+        out["H"], _ = bracket(fresh)
+        out["H"]["objects_created_before"] = len(junk)
     # runs P: ONE problem object shared by two fresh components, with an order-sensitive fingerprint of the problem taken
     # before, between and after: P1 = P2 = A (the problem object may be reused) and the problem must come back unchanged
     if case.get("p", True) and case["problem"]["kind"] != "none":
